@@ -104,10 +104,14 @@ Fixpoint latest (l : list Z) : option Z :=
               | Some m => if (m <=? x)%Z then Some x else Some m
               end
   end.
-Definition restart_files {F} (entries : list (Z * F)) : option (Z * list F) :=
+(* entries = the DataSet lines of the pvd file: (timestep attribute, file).  The timestep
+   attribute is whatever was passed as write_pvd(times=...) (physical times; by default the
+   time-step indices); it is held as an integer in units of 1/unit.  The files imported are
+   those LISTED with the latest timestep; the returned index is int(float(timestep)). *)
+Definition restart_files {F} (unit : Z) (entries : list (Z * F)) : option (Z * list F) :=
   match latest (map fst entries) with
   | None => None
-  | Some m => Some (m, map snd (filter (fun e => Z.eqb (fst e) m) entries))
+  | Some m => Some (Z.quot m unit, map snd (filter (fun e => Z.eqb (fst e) m) entries))
   end.
 
 (* ---- time information ---------------------------------------------------------- *)
@@ -186,7 +190,7 @@ Definition dim_agree (grids : list (list Z)) (ids : list (list nat))
                             (map (@length Z) per_entity) file_blocks) restored.
 
 Definition pvd_agree (entries : list (Z * nat)) (picked : option (Z * list nat)) : bool :=
-  match restart_files entries, picked with
+  match restart_files 1024%Z entries, picked with
   | None, None => true
   | Some (m, fs), Some (m', fs') => Z.eqb m m' && lnat_eqb fs fs'
   | _, _ => false
